@@ -502,6 +502,73 @@ class deadline:
         return False
 
 
+class ResultKeeper:
+    """Results are values: what a call returned must still hold the same numbers after later calls.  keep() remembers the
+    returned object itself together with a deep copy taken at return time (only when it contains something mutable: an
+    array, a list, an object); verify() - called before/after later library calls - compares each remembered object with
+    its copy.  A result that is a view of storage the library goes on writing to (a module-level work array, a template
+    handed out without a copy) changes under the caller; a result that is a fresh object, or a shared object that is
+    never written again, does not."""
+
+    def __init__(self, ctx, label, cap=6):
+        self.ctx = ctx
+        self.label = label
+        self.cap = cap
+        self.kept = []
+
+    @staticmethod
+    def _mutable(o, depth=0):
+        import numpy as np
+        if isinstance(o, np.ndarray) or isinstance(o, (list, dict, set, bytearray)):
+            return True
+        if isinstance(o, tuple) and depth < 3:
+            return any(ResultKeeper._mutable(x, depth + 1) for x in o)
+        if isinstance(o, (int, float, complex, str, bytes, bool, type(None))):
+            return False
+        return hasattr(o, '__dict__')
+
+    @staticmethod
+    def _same(a, b, depth=0):
+        import numpy as np
+        if isinstance(a, np.ndarray) or isinstance(b, np.ndarray):
+            try:
+                return np.shape(a) == np.shape(b) and bool(np.array_equal(np.asarray(a), np.asarray(b), equal_nan=True))
+            except Exception:
+                return bool(np.array_equal(np.asarray(a), np.asarray(b)))
+        if isinstance(a, (tuple, list)) and isinstance(b, (tuple, list)):
+            return len(a) == len(b) and all(ResultKeeper._same(x, y, depth + 1) for x, y in zip(a, b))
+        if isinstance(a, float) and isinstance(b, float):
+            return a == b or (a != a and b != b)
+        if hasattr(a, '__dict__') and hasattr(b, '__dict__') and depth < 3 and type(a) is type(b):
+            va, vb = vars(a), vars(b)
+            return va.keys() == vb.keys() and all(ResultKeeper._same(va[k], vb[k], depth + 1) for k in va)
+        try:
+            return bool(a == b)
+        except Exception:
+            return True
+
+    def keep(self, result, case, label=None):
+        import copy
+        if not self._mutable(result):
+            return
+        try:
+            snap = copy.deepcopy(result)
+        except Exception:
+            return
+        self.kept.append((result, snap, case, label or self.label))
+        if len(self.kept) > self.cap:
+            self.kept.pop(0)
+        self.ctx.count('results_kept_for_later_comparison')
+
+    def verify(self):
+        for result, snap, case, label in list(self.kept):
+            self.ctx.count('kept_results_compared_after_later_calls')
+            if not self._same(result, snap):
+                self.ctx.violation(label + ':earlier-result-changed-by-later-call', case,
+                                   {'returned_then': jsonable(snap), 'holds_now': jsonable(result)})
+                self.kept = [k for k in self.kept if k[0] is not result]
+
+
 _UNJUDGED_HUNG = set()
 
 
